@@ -269,7 +269,7 @@ theorem build_follows_source (u : UC) (stmts : List Stmt) :
     with it (the order `input_atomic` rests on); every association is defined and then formalized -/
 theorem loader_shape_tie :
     Gen.BuildShape.buildMetamodel = ["m = xtuml.MetaModel(id_generator)", "self.populate(m)", "return m"] ∧
-    Gen.BuildShape.inputSteps = [("parse", "s"), ("extend", "s")] ∧
+    Gen.BuildShape.inputSteps = [("parse", "v0"), ("extend", "v0")] ∧
     Gen.BuildShape.associationCalls = ["define_association", "formalize"] := ⟨rfl, rfl, rfl⟩
 
 /-- the model's matchers were written for exactly the regular expressions the source states now -/
